@@ -21,9 +21,20 @@ package linux
 // route left (the file then only holds the header); otherwise the deleted
 // routes are back after the next reboot.
 //vc:ghost var routingSaved bool
+//vc:ghost var iptStep int
 //vc:func (*State).ApplyCommands
 //vc:  requires[C11] !isCompareRun
 //vc:  init routingSaved = false
+// the new rule set is written to a temporary file, made executable, run (that
+// activates it) and only then moved over the startup file - in this order
+//vc:  init iptStep = 0
+//vc:  assert[C05,C14] at "s.writeStartupIPTables(cf.iptables, tmpFile)" @newRulesWrittenFirst iptStep == 0 && arg2 == tmpFile
+//vc:  assign after "s.writeStartupIPTables(cf.iptables, tmpFile)" iptStep = 1
+//vc:  assert[C05,C14] at "chmod a+x" @thenMadeExecutable iptStep == 1 && arg1 == "chmod a+x " + tmpFile
+//vc:  assign after "chmod a+x" iptStep = 2
+//vc:  assert[C05,C14] at "s.cmd(tmpFile)" @thenActivated iptStep == 2
+//vc:  assign after "s.cmd(tmpFile)" iptStep = 3
+//vc:  assert[C05,C14] at "mv -f" @movedOverStartupFileLast iptStep == 3 && arg1 == "mv -f " + tmpFile + " " + deviceIPTablesFile
 //vc:  ensures[C05] @changedRoutesAreSaved result == nil && len(old(s.change.routes)) != 0 ==> routingSaved
 //vc:  invariant[C09] 1 "for _, c := range ch.routes" accepted == old(accepted) + 1 + rangeindex && -1 <= rangeindex && rangeindex < len(s.change.routes) && len(s.change.routes) == old(len(s.change.routes))
 //vc:  assert[C05] at "s.writeStartupIPTables(cf.iptables, tmpFile)" @targetRulesetIsLoaded s.change.iptables != "" && arg1 == s.change.newConfig.iptables
